@@ -64,7 +64,9 @@ def build(node, H, salt: int, eolstr: str, strip_meta=False, late_meta=False):
     if k == "L":
         return H.TagList(*kids)
     nm = names()
-    if k in ("V", "W"):
+    if node.get("name"):
+        name = node["name"]
+    elif k in ("V", "W"):
         name = nm["void"][(i + salt) % len(nm["void"])]
     else:
         name = nm["nonvoid"][(i * 7 + salt) % len(nm["nonvoid"])]
@@ -143,7 +145,10 @@ def render(obj, H, indent, eolstr, addws):
 
 
 def norm_tree(t):
-    return {"k": t["k"], "id": t["id"], "tail": t.get("tail", []), "pre": t.get("pre", []), "c": [norm_tree(c) for c in t.get("c", [])]}
+    out = {"k": t["k"], "id": t["id"], "tail": t.get("tail", []), "pre": t.get("pre", []), "c": [norm_tree(c) for c in t.get("c", [])]}
+    if t.get("name"):
+        out["name"] = t["name"]          # gamma hint only: the specification never looks at element names
+    return out
 
 
 def has_kind(t, ks):
@@ -233,6 +238,19 @@ class _LayoutBase(Prop):
                 eol = rnd.choice(["\r\n", "\ue003", " | ", "\t"] + ([] if has_eol_tail else [""]))
             gens.append({"kind": "render", "tree": t, "indent": rnd.randint(0, 5), "eol": eol,
                          "addws": (rnd.random() < 0.8) if t["k"] == "L" else True, "salt": rnd.randrange(1000)})
+        # elements whose content parsers treat specially (a line feed right after <pre> / <textarea> is dropped by a
+        # parser - the renderer must still write exactly the content): sole text child, first of two, inside a block
+        nd = lambda k, i, c=(), pre=(), tail=(), name=None: {"k": k, "id": i, "c": list(c), "pre": [list(x) for x in pre],
+                                                             "tail": [list(x) for x in tail], "name": name}
+        for name in ("pre", "textarea", "listing", "title", "code"):
+            for leafk in ("T", "H"):
+                for eol, pre in (("\n", [("eol", 0)]), ("\r\n", [("nl", 0)]), ("", [("nl", 0)]), ("\n", [("eol", 0), ("ind", 0)])):
+                    for kk in ("I", "B"):
+                        one = nd(kk, 2, [nd(leafk, 3, pre=pre)], name=name)
+                        two = nd(kk, 2, [nd(leafk, 3, pre=pre), nd("I", 4, [nd("T", 5)])], name=name)
+                        for sub in (one, two):
+                            for root in (sub, nd("B", 1, [nd("T", 6), sub, nd("T", 7)])):
+                                gens.append({"kind": "render", "tree": root, "indent": rnd.choice([0, 2]), "eol": eol, "addws": True, "salt": 1})
         return gens
 
     def execute(self, g):
